@@ -25,7 +25,7 @@ def shards(tier):
 
 
 def required_classes(tier):
-    return ["add:generic", "add:P=Q", "add:P=-Q", "add:identity", "multiply:n=0", "multiply:n<0", "multiply:n>=N", "multiply:random", "soak:distinct-scalars", "multiply:endomorphism-eigenvalue", "add:near-x", "inv:small-and-structured", "multiply:hash-colliding", "add:shared-coordinate", "add:hash-colliding",
+    return ["add:generic", "add:P=Q", "add:P=-Q", "add:identity", "multiply:n=0", "multiply:n<0", "multiply:n>=N", "multiply:random", "multiply:bit-pattern", "multiply:int-subclass", "soak:distinct-scalars", "multiply:endomorphism-eigenvalue", "add:near-x", "inv:small-and-structured", "multiply:hash-colliding", "add:shared-coordinate", "add:hash-colliding",
             "privtopub", "W4:pairs", "W4:scalars", "constants"]
 
 
@@ -140,6 +140,12 @@ def real_curve(rec, s):
             yield "multiply:n<0", n
         for n in CG.endo_scalars(N):
             yield "multiply:endomorphism-eigenvalue", n
+        from .common import IntSub, bit_patterns
+        for n in bit_patterns(256, rng, 3 if quick else 12):
+            yield "multiply:bit-pattern", n
+        yield "multiply:int-subclass", IntSub(rng.getrandbits(255))
+        yield "multiply:int-subclass", IntSub(N + 3)
+        yield "multiply:int-subclass", IntSub(-5)
         for n in list(range(4, 40)) + [N - k for k in range(2, 12)]:
             yield "multiply:small/N-1", n
         n0 = rng.getrandbits(250)
@@ -166,7 +172,10 @@ def real_curve(rec, s):
             while True:
                 j += 1
                 n_ = (0x9E3779B97F4A7C15 * j + (j << 130) + 12345) % N
-                yield (lambda n_=n_: (call(s.multiply, Gp, n_), call(s.inv, n_, P), call(s.inv, n_ + 1, N)))
+                if j <= 1300 or j % 16 == 0:
+                    yield (lambda n_=n_: (call(s.multiply, Gp, n_), call(s.inv, n_, P), call(s.inv, n_ + 1, N)))
+                else:
+                    yield (lambda n_=n_: (call(s.inv, n_, P), call(s.inv, n_ + 1, N)))
         soak_then_reprobe(rec, "distinct-scalars", [lambda n_=n_: (call(s.multiply, Gp, n_), call(s.inv, n_ % P or 1, P), call(s.privtopub, (n_ % N or 1).to_bytes(32, "big"))) for n_ in first],
                           distinct_calls(), soak_size(["py_ecc.secp256k1.secp256k1"]))
     else:
